@@ -49,6 +49,24 @@ def run(rep, tier):
     rule_x86_rounds(rep, tier)
     rule_i386_rounds(rep, tier)
     rule_m68k_frame(rep)
+    rule_risc_rounds(rep, tier)
+
+
+def rule_risc_rounds(rep, tier):
+    """D5r: the ascon_permute of every other ISA (RISC-V 32E / 32I / 64I, AArch64,
+    ARMv6, ARMv6-M, ARMv7-M, Xtensa, m68k and ColdFire) computes the
+    specification's rounds first_round..11 under the layout it shares with the C
+    helpers - see av/asm_risc.py for the four obligations per back end - and
+    restores the callee-saved registers, the stack pointer and the return
+    address.  Nothing is assembled or run: the text is preprocessed with the
+    target's predefined macros and interpreted over bit polynomials."""
+    from . import asm_risc
+    rid = "C18.D5r"
+    rep.rule(rid, "RISC-V / AArch64 / ARM / Xtensa / m68k ascon_permute: every round block is the specification's round "
+                  "under the shared C layout (polynomial identity); dispatch, prologue/epilogue and ABI registers")
+    for name in asm_risc.BACKENDS:
+        asm_risc.rule_rounds(rep, rid, name)
+    rep.floor_discharged(rid, 17 * len(asm_risc.BACKENDS))
 
 
 def _run(rep, tier):
@@ -57,8 +75,8 @@ def _run(rep, tier):
         "captured and compared to the checked-in files.  D2: each .S unit of the compilation database "
         "assembled with its real flags, sections listed by llvm-readelf.  D3/D4: abstract interpretation of "
         "the preprocessed x86-64 assembly for every MAX_SHARES variant.")
-    rep.undecided = ("equality with the specification's permutation for every state on each ISA; ABI of the "
-                     "non-x86-64 assembly files; i386 (not assembled on this host)")
+    rep.undecided = ("the AVR assembly beyond D1/D2; memory footprint of the non-x86 files beyond what the "
+                     "interpreted ascon_permute touches; the masked AVR code")
     rule_generators(rep)
     rule_execstack(rep)
     asm_x86._report(rep, "C18.D3a", tier, "abi",
